@@ -650,6 +650,8 @@ def check_rho_alignment(ctx, rep):
 
 
 def run(ctx, rep):
+    from sa import callbind
+    callbind.run_for(ctx, rep, 'C09', 5)
     rep.explanation = (
         "JSON option plumbing of every from_json (an option stored for the constructor is read from the key of the same name), "
         "keyword plumbing and the epidemiological re-parameterisation as polynomial identities, member resolution of the model "
